@@ -8,6 +8,7 @@ Local Open Scope N_scope.
 Local Open Scope list_scope.
 
 Record case := mkCase {
+  c_single : bool;                       (* the source literal is single-quoted *)
   c_body : list N;                       (* code points between the quotes of the source literal *)
   c_impl : option (list (list N)) }.     (* [token; length; quote(unquote); unquote] as code points; None = error *)
 
@@ -18,8 +19,8 @@ Definition unquoted_value (s : cssstring) : option cssstring :=
 (* css/rule.rs Property::write: the printed value has every newline replaced by a space *)
 Definition prop_write (t : list N) : list N := map (fun c => if c =? 10 then 32 else c) t.
 
-Definition model_outputs (body : list N) : option (list (list N)) :=
-  match literal_value body with
+Definition model_outputs (single : bool) (body : list N) : option (list (list N)) :=
+  match literal_value_of single body with
   | None => None
   | Some lv =>
       match unquoted_value lv with
@@ -34,7 +35,7 @@ Definition model_outputs (body : list N) : option (list (list N)) :=
 
 Definition texts_eqb (a b : list (list N)) : bool := list_eqb cps_eqb a b.
 Definition corr (c : case) : Z :=
-  match model_outputs (c_body c), c_impl c with
+  match model_outputs (c_single c) (c_body c), c_impl c with
   | Some a, Some b => if texts_eqb a b then 1%Z else 0%Z
   | None, None => 1%Z
   | None, Some _ => 2%Z                   (* literal outside the modelled grammar *)
@@ -88,7 +89,7 @@ Definition clause_quote_unquote (c : case) : bool :=
 (* ---- known classes: conditions on the source literal only ---- *)
 (* K1 (F26a): the stored text differs in length from the denoted string (some escape is stored escaped) *)
 Definition known_len (c : case) : bool :=
-  match store_dq (c_body c) with
+  match store_lit (c_single c) (c_body c) with
   | Some v => negb (Nat.eqb (length v) (length (denoted c)))
   | None => false
   end.
@@ -102,24 +103,24 @@ Fixpoint pu_then_hex (l : list N) : bool :=
 (* escapes of the body: (value, first char, char after the escape) *)
 Inductive bst : Type := BNormal | BCtl | BSlash | BHex (v : N) (n : nat).
 Definition stored_escaped (v : N) : bool := is_control v && negb (v =? 9) && negb (v =? 0).
-Fixpoint bad_escape (l : list N) (st : bst) : bool :=
+Fixpoint bad_escape (sq : bool) (l : list N) (st : bst) : bool :=
   match l, st with
   | [], BHex v _ => negb (valid_char v)
   | [], _ => false
-  | c :: r, BNormal => if c =? 92 then bad_escape r BSlash else bad_escape r BNormal
-  | c :: r, BCtl => (c =? 32) || (if c =? 92 then bad_escape r BSlash else bad_escape r BNormal)
+  | c :: r, BNormal => if c =? 92 then bad_escape sq r BSlash else bad_escape sq r BNormal
+  | c :: r, BCtl => (c =? 32) || (if c =? 92 then bad_escape sq r BSlash else bad_escape sq r BNormal)
   | c :: r, BSlash =>
       match hexv c with
-      | Some d => bad_escape r (BHex d 1)
-      | None => (c =? 10) || (c =? 9) || bad_escape r BNormal
+      | Some d => bad_escape sq r (BHex d 1)
+      | None => ((c =? 10) && negb sq) || (c =? 9) || bad_escape sq r BNormal
       end
   | c :: r, BHex v n =>
       match hexv c with
-      | Some d => if Nat.ltb n 6 then bad_escape r (BHex (v * 16 + d) (S n))
-                  else negb (valid_char v) || bad_escape r BNormal
+      | Some d => if Nat.ltb n 6 then bad_escape sq r (BHex (v * 16 + d) (S n))
+                  else negb (valid_char v) || bad_escape sq r BNormal
       | None => negb (valid_char v) || ((c =? 9) || (c =? 10) || (c =? 13) || (c =? 12))
-                || (if c =? 92 then bad_escape r BSlash
-                    else if (c =? 32) && stored_escaped v then bad_escape r BCtl else bad_escape r BNormal)
+                || (if c =? 92 then bad_escape sq r BSlash
+                    else if (c =? 32) && stored_escaped v then bad_escape sq r BCtl else bad_escape sq r BNormal)
       end
   end.
 
@@ -128,7 +129,7 @@ Fixpoint bad_escape (l : list N) (st : bst) : bool :=
    of a surrogate / out-of-range code point, a hex escape terminated by tab/newline, or the escape of a
    control character followed by a space character (cleanup_escape_ws drops the terminator) *)
 Definition known_emit (c : case) : bool :=
-  pu_then_hex (denoted c) || bad_escape (c_body c) BNormal.
+  pu_then_hex (denoted c) || bad_escape (c_single c) (c_body c) BNormal.
 
 (* K3: quote(unquote(s)) when s denotes a line break (LF, CR, FF): unquote decodes the escape, quote does
    not escape it again, and Property::write prints a newline as a space *)
